@@ -15,9 +15,8 @@ MODULES = ["Percival.Properties.C14"]
 WRAP = "-Wl,--wrap=malloc,--wrap=calloc,--wrap=realloc,--wrap=free,--wrap=atexit"
 NOBUILTIN = c12.NOBUILTIN
 EV_SRCS = ["datastruct/timerqueue.c", "events/events_network_selectstats.c", "util/warnp.c"]
-UP_SRCS = ["events/events.c", "events/events_immediate.c", "events/events_network.c",
-           "events/events_network_selectstats.c", "events/events_timer.c", "datastruct/elasticarray.c",
-           "datastruct/ptrheap.c", "datastruct/timerqueue.c", "network/network_read.c", "network/network_write.c",
+# events/*.c, elasticarray.c, ptrheap.c, network_read.c and network_write.c are #included by h_af_upper.c (white-box)
+UP_SRCS = ["events/events_network_selectstats.c", "datastruct/timerqueue.c", "network/network_accept.c",
            "network/network_connect.c", "netbuf/netbuf_read.c", "netbuf/netbuf_write.c", "http/http.c", "util/sock.c",
            "util/sock_util.c", "util/asprintf.c", "util/humansize.c", "util/monoclock.c", "util/warnp.c"]
 KCAP = 70          # above this many allocations the k's are sampled (all k <= 24, then every third)
@@ -139,6 +138,131 @@ def bases_upper(rng, tier):
     return out
 
 
+def bases_upstart(rng, tier):
+    """start / registration / teardown calls, one at a time (no event-loop pass): the ops of Model/AllocFail.lean.
+    Every object gets its own descriptor slot, handles and slots are reused after a release (pool reuse, and the
+    same registration made again after a failure)."""
+    nb = 30 if tier == "quick" else 200
+    out = []
+    for bi in range(nb):
+        r = rng.fork("us%d" % bi)
+        ops = []
+        free_slots = list(range(24))
+        live = {k: {} for k in ("nr", "nw", "na", "nc", "nbr", "nbw", "hq")}     # kind -> handle -> slot
+        nbw_resv = {}
+
+        def newh(kind):
+            for h in range(32):
+                if h not in live[kind]:
+                    return h
+            return None
+
+        for _ in range(r.range(3, 14 if tier == "quick" else 30)):
+            k = r.below(100)
+            if k < 30 and free_slots:
+                kind = r.choice(["nr", "nr", "nw", "nw", "na"])
+                h = newh(kind)
+                sl = free_slots.pop(r.below(len(free_slots)))
+                live[kind][h] = sl
+                ops.append("%s_start %d %d" % (kind, h, sl))
+                if r.chance(1, 3):          # the same call again: a retry if the first one failed, `skip` otherwise
+                    ops.append("%s_start %d %d" % (kind, h, sl))
+            elif k < 42:
+                kind = r.choice(["nr", "nw", "na"])
+                if live[kind]:
+                    h = r.choice(sorted(live[kind]))
+                    free_slots.append(live[kind].pop(h))
+                    ops.append("%s_cancel %d" % (kind, h))
+            elif k < 54:
+                h = newh("nc")
+                pat = r.choice(["g", "g", "-", "b", "bg", "bbg", "gb", "bb"])
+                tmo = r.choice(["-", "-", "0", "1", "1000000", "2500000"])
+                live["nc"][h] = None
+                ops.append("nc_start %d %s %s" % (h, pat, tmo))
+                if r.chance(1, 3):
+                    ops.append("nc_start %d %s %s" % (h, pat, tmo))
+            elif k < 60:
+                if live["nc"]:
+                    h = r.choice(sorted(live["nc"]))
+                    live["nc"].pop(h)
+                    ops.append("nc_cancel %d" % h)
+            elif k < 72:
+                if live["nbr"] and r.chance(3, 4):
+                    h = r.choice(sorted(live["nbr"]))
+                    j = r.below(10)
+                    if j < 5:
+                        ln = r.choice([0, 1, 100, 4096, 4097, 8192, 8193, 20000, 100000])
+                        ops.append("nbr_wait %d %d" % (h, ln))
+                        if r.chance(1, 3):
+                            ops.append("nbr_wait %d %d" % (h, ln))
+                    elif j < 8:
+                        ops.append("nbr_cancel %d" % h)
+                    else:
+                        ops.append("nbr_cancel %d" % h)
+                        ops.append("nbr_free %d" % h)
+                        free_slots.append(live["nbr"].pop(h))
+                elif free_slots:
+                    h = newh("nbr")
+                    sl = free_slots.pop(r.below(len(free_slots)))
+                    live["nbr"][h] = sl
+                    ops.append("nbr_init %d %d" % (h, sl))
+                    if r.chance(1, 3):
+                        ops.append("nbr_init %d %d" % (h, sl))
+            elif k < 90:
+                if live["nbw"] and r.chance(4, 5):
+                    h = r.choice(sorted(live["nbw"]))
+                    j = r.below(10)
+                    ln = r.choice([0, 1, 10, 300, 4095, 4096, 4097, 5000, 70000])
+                    if j < 4:
+                        ops.append("nbw_write %d %d" % (h, ln))
+                    elif j < 7:
+                        ops.append("nbw_reserve %d %d" % (h, ln))
+                        if r.chance(1, 4):
+                            ops.append("nbw_reserve %d %d" % (h, ln))
+                        ops.append("nbw_consume %d %d" % (h, r.choice([ln, ln, 0, ln // 2])))
+                    elif j < 9:
+                        ops.append("nbw_write %d %d" % (h, ln))
+                        ops.append("nbw_write %d %d" % (h, ln))
+                    else:
+                        ops.append("nbw_free %d" % h)
+                        free_slots.append(live["nbw"].pop(h))
+                elif free_slots:
+                    h = newh("nbw")
+                    sl = free_slots.pop(r.below(len(free_slots)))
+                    live["nbw"][h] = sl
+                    ops.append("nbw_init %d %d" % (h, sl))
+            else:
+                if live["hq"] and r.chance(1, 2):
+                    h = r.choice(sorted(live["hq"]))
+                    live["hq"].pop(h)
+                    ops.append("hq_cancel %d" % h)
+                else:
+                    h = newh("hq")
+                    live["hq"][h] = None
+                    pat = r.choice(["g", "g", "-", "bg", "b"])
+                    pl = r.choice([0, 1, 17, 200])
+                    ops.append("hq_start %d %s %d" % (h, pat, pl))
+                    if r.chance(1, 3):
+                        ops.append("hq_start %d %s %d" % (h, pat, pl))
+        ops.append("end")
+        out.append(ops)
+    # every start made twice (the second is the retry after a failure), every cancel/free, in one sequence
+    out.append(["nr_start 0 0", "nr_start 0 0", "nw_start 0 0", "nw_start 0 0", "na_start 0 1", "na_start 0 1",
+                "nc_start 0 g 1000000", "nc_start 0 g 1000000", "nc_start 1 - -", "nc_start 1 - -",
+                "nbr_init 0 2", "nbr_init 0 2", "nbr_wait 0 0", "nbr_wait 0 0", "nbr_cancel 0", "nbr_wait 0 9000",
+                "nbr_wait 0 9000", "nbw_init 0 3", "nbw_init 0 3", "nbw_write 0 10", "nbw_write 0 5000",
+                "nbw_reserve 0 100", "nbw_reserve 0 100", "nbw_consume 0 100", "hq_start 0 g 3", "hq_start 0 g 3",
+                "hq_cancel 0", "nbw_free 0", "nbr_cancel 0", "nbr_free 0", "nc_cancel 1", "nc_cancel 0",
+                "na_cancel 0", "nw_cancel 0", "nr_cancel 0", "end"])
+    # more cookies than the pools of network_read.c / network_write.c cache (16): the 17th cancel takes mpool_free's
+    # slow path, where a refused request is harmless
+    many = ["n%s_start %d %d" % (d, i, i) for d in "rw" for i in range(18)]
+    many += ["n%s_cancel %d" % (d, i) for d in "rw" for i in range(18)]
+    many += ["nr_start 0 0", "nw_start 0 0", "nr_cancel 0", "nw_cancel 0", "end"]
+    out.append(many)
+    return out
+
+
 _N = re.compile(r"\| n=(\d+)")
 
 
@@ -213,7 +337,15 @@ def make_components(ctx):
              "(content-length, chunked, 1xx then close-delimited) / humansize / sock_addr_prettyprint over real socketpairs "
              "x {no fault, failat k, failfrom k : every k}; judged by the L1 rules of pmodel upmon only",
         monitor_args=["upmon"], ldflags=[WRAP + ",--wrap=poll"], ignore_l2=True, env={"H_UPPER_TMP": ctx.tmp}, **common)
-    return [(cont, bases_containers), (ev, bases_events), (up, bases_upper)]
+    ust = vlib.Component(
+        "upstart", "h_af_upper.c", UP_SRCS, ["upmodel"], None, nontrivial=lambda c: c[0].startswith("fail"),
+        rule="upstart: start / registration / teardown calls of network_read, network_write, network_accept, "
+             "network_connect(_timeo), netbuf reader and writer, http_request, one call per op without an event-loop pass "
+             "(fixed descriptors, harness-side listener) x {no fault, failat k, failfrom k : every k}; lock-step with "
+             "Model/AllocFail.lean: live library blocks, request sizes in order (hence the number of consultations), "
+             "which descriptors have a reader/writer registered, number of immediate events and timers, pool fill",
+        monitor_args=["upmon"], ldflags=[WRAP + ",--wrap=poll"], env={"H_UPPER_TMP": ctx.tmp}, **common)
+    return [(cont, bases_containers), (ev, bases_events), (up, bases_upper), (ust, bases_upstart)]
 
 
 def components(ctx):
